@@ -161,6 +161,10 @@ def main():
             'detected_by': info['detected_by'],
         }
         dst = os.path.join(VERIF, 'seeded', mid)
+        if os.path.realpath(os.path.join(PENDING, mid)) == os.path.realpath(dst):
+            # re-confirming a change that is already filed: only the record of what was run is rewritten
+            json.dump(meta, open(os.path.join(dst, 'meta.json'), 'w'), indent=1)
+            continue
         shutil.rmtree(dst, ignore_errors=True)
         os.makedirs(dst)
         shutil.copy(patch, os.path.join(dst, 'patch.diff'))
